@@ -181,3 +181,71 @@ func (cl *Classifier) Reach(fn *ssa.Function, pt Point) map[*ssa.BasicBlock]bool
 	}
 	return seen
 }
+
+// ReachFrom is Reach started at the given blocks; it also reports the edges taken.
+func (cl *Classifier) ReachFrom(starts []*ssa.BasicBlock, pt Point) (map[*ssa.BasicBlock]bool, map[[2]*ssa.BasicBlock]bool) {
+	seen := map[*ssa.BasicBlock]bool{}
+	edges := map[[2]*ssa.BasicBlock]bool{}
+	work := append([]*ssa.BasicBlock(nil), starts...)
+	for len(work) > 0 {
+		b := work[len(work)-1]
+		work = work[:len(work)-1]
+		if seen[b] {
+			continue
+		}
+		seen[b] = true
+		succs := b.Succs
+		if iff := path.BlockIf(b); iff != nil {
+			if v, known := cl.Eval(iff.Cond, pt); known {
+				if v {
+					succs = b.Succs[:1]
+				} else {
+					succs = b.Succs[1:2]
+				}
+			}
+		}
+		for _, s := range succs {
+			edges[[2]*ssa.BasicBlock{b, s}] = true
+			work = append(work, s)
+		}
+	}
+	return seen, edges
+}
+
+// Answers lists the boolean values v can take on the reached edges at point pt:
+// constants, comparisons the classifier can evaluate, and merges of those.
+func (cl *Classifier) Answers(v ssa.Value, pt Point, edges map[[2]*ssa.BasicBlock]bool) (yes, no bool) {
+	seen := map[ssa.Value]bool{}
+	var rec func(v ssa.Value)
+	rec = func(v ssa.Value) {
+		if seen[v] {
+			return
+		}
+		seen[v] = true
+		if ph, ok := v.(*ssa.Phi); ok {
+			any := false
+			for i, e := range ph.Edges {
+				if edges[[2]*ssa.BasicBlock{ph.Block().Preds[i], ph.Block()}] {
+					any = true
+					rec(e)
+				}
+			}
+			if !any {
+				// the merge is the start block itself: nothing is known about how it was entered
+				yes, no = true, true
+			}
+			return
+		}
+		if b, known := cl.Eval(v, pt); known {
+			if b {
+				yes = true
+			} else {
+				no = true
+			}
+			return
+		}
+		yes, no = true, true
+	}
+	rec(v)
+	return
+}
